@@ -59,6 +59,10 @@ func phaseStack(r *vk.Run) {
 		sc := scen[si]
 		in := newMcInst(sc.cfg, true, ch)
 		defer in.close()
+		if in.rx == nil { // the honest handshake failed: nothing to run
+			agg.add(in.viol[0], in.viol[1], map[string]interface{}{"part": "stack", "config": sc.cfg.name, "step": "handshake"}, 0, si)
+			return
+		}
 		pan, pv := vk.Catch(func() {
 			for _, e := range sc.script {
 				if in.viol[0] != "" {
@@ -75,7 +79,9 @@ func phaseStack(r *vk.Run) {
 				in.closingDrain()
 			}
 		})
-		if pan {
+		if pan && in.txTap != nil && in.txTap.failed != "" {
+			in.fail("mconn:sender-connection-error", "%s (then: %v)", in.txTap.failed, pv)
+		} else if pan {
 			in.fail("mconn:panic", "%v", pv)
 		}
 		n := 0
